@@ -23,7 +23,7 @@ CHECKS = {
         ref='DESIGN.md 3/C06'),
     'C07': dict(
         technique='fuzzing with a CPU-time oracle: pumped (prefix, unit^n, suffix) inputs, exhaustive over 1- and 2-token units, Hypothesis-drawn 3-token units, growth-law confirmation in a fresh worker',
-        text='Empirical growth test with a x10^3 margin: a violation is an input of <= 80 characters that costs > 0.5 s CPU and at least quadruples when its length doubles (confirmed twice). Covers compile(), every compiled regex reachable in the package, and the match side (attribute values). Not a complexity proof.',
+        text='Empirical growth test with a x10^3 margin: a violation is an input of <= 80 characters that, confirmed in a fresh worker, costs > 0.5 s CPU and at least quadruples when its length doubles, or costs > 0.05 s and grows >= 64x on doubling and >= 6x over the last quarter. Covers compile(), every compiled regex reachable in the package, and the match side (attribute values). Not a complexity proof.',
         note='Trusted: time.process_time() of a single-threaded killable worker; token alphabet (hand list + literals extracted from every regex with re._parser).',
         ref='DESIGN.md 3/C07'),
     'C09': dict(
@@ -43,12 +43,12 @@ CHECKS = {
         ref='DESIGN.md 3/C03'),
     'C05': dict(
         technique='metamorphic property-based testing: set-algebra laws over soupsieve\'s own answers for generated selector pairs from the whole grammar',
-        text='Union, complement, intersection and alias laws for "A, B", :is, :where, :matches, :not and X:is(A) are checked on generated pairs (half witness-directed so that both sides are non-empty) over 7 document flavours x 5 namespace maps. Self-consistency only: an error common to both sides of a law is invisible.',
+        text='Union, complement, intersection and alias laws for "A, B", :is, :where, :matches, :not and X:is(A), and the forgiving-slot law (an empty or dangling slot in :is()/:where() contributes nothing), are checked on generated pairs (half witness-directed so that both sides are non-empty) over 7 document flavours x 5 namespace maps. Self-consistency only: an error common to both sides of a law is invisible.',
         note='Trusted: nothing beyond set operations on element identities; universe for complements is sel("*") under the same namespace map.',
         ref='DESIGN.md 3/C05'),
     'C08': dict(
         technique='robustness fuzzing with structured generators: hostile trees x per-pseudo-class probe selectors x all entry points, oracle = no exception (TypeError only for non-Tag targets)',
-        text='Hostile form soups (near-valid dates/weeks/numbers, arbitrary dir/lang/type), XML with unknown namespaces, detached fragments, multiple top-level nodes and odd-typed attribute values (None, numbers, bytes, tuples, nested lists) are queried with one probe per pseudo-class (plain and negated) plus random full-grammar selectors through all six entry points.',
+        text='Hostile form soups (near-valid dates/weeks/numbers, arbitrary dir/lang/type), XML with unknown namespaces, detached fragments, multiple top-level nodes and odd-typed attribute values (None, numbers, bytes, tuples, nested lists) are queried with one probe per pseudo-class (plain and negated) plus random full-grammar selectors through all six entry points; detached single elements (extract(), new_tag) are call targets too; selectors with astronomically large An+B terms must finish within a traced step budget (termination without a clock).',
         note='Trusted: the generator keeps odd-typed values on attributes only attribute/class/id selectors read, as the statement scopes it.',
         ref='DESIGN.md 3/C08'),
     'C11': dict(
